@@ -245,14 +245,19 @@ class Executor(Exec):
         g = gen.generators[0]
         it = self.eval(g.iter, st)
         # canonical bound-variable names: two evaluations of the same specification text give the same term
-        j = z3.Int(f"qk%{len(self.binder_marks)}")
+        # (named after the bound variable of the specification text, so that the same text evaluated at different
+        #  nesting depths still yields the same term)
+        nm = g.target.id if isinstance(g.target, ast.Name) else str(len(self.binder_marks))
+        if any(str(v) == f"q%{nm}" for vs, _ in self.binder_marks for v in vs):
+            nm = f"{nm}%{len(self.binder_marks)}"
+        j = z3.Int(f"q%{nm}")
         saved_env = st.env
         st.env = dict(st.env)
         mark = len(st.pc)
         try:
             if isinstance(it, VOpaque) and it.desc == "allkeys":
-                # every key (keys are Int-coded): unrestricted quantification
-                self.bind_target(st, g.target, VStr(j))
+                # every key / fingerprint (keys are Int-coded): unrestricted quantification
+                self.bind_target(st, g.target, VInt(j))
                 rng = z3.BoolVal(True)
             elif isinstance(it, VRange):
                 # quantify over the value itself (clean triggers: a[k], not a[lo + k])
@@ -526,11 +531,70 @@ class Executor(Exec):
         from . import lib_models
         return lib_models.value_method(self, st, recv, name, args, kwargs, node)
 
+    def table_of(self, st, loc):
+        """(table location, table value, bucket index) when loc is a bucket of a jagged int table"""
+        if loc[0] == "elem":
+            try:
+                parent = self.read(st, loc[1])
+            except Unsupported:
+                return None
+            if isinstance(parent, VSeq) and isinstance(parent.et, TSeq) and isinstance(parent.et.elem, TInt):
+                return loc[1], parent, loc[2]
+        return None
+
+    def name_table(self, st, tabloc):
+        """give the current value of a table fresh constant names (so that count terms over it are valid
+        quantifier triggers whatever the index expressions of the update looked like)"""
+        cur = self.read(st, tabloc)
+        comps = []
+        for c in cur.comps:
+            if z3.is_const(c) and c.decl().kind() == z3.Z3_OP_UNINTERPRETED:
+                comps.append(c)
+            else:
+                nm = z3.Const(fresh_name("tab"), c.sort())
+                st.pc.append(nm == c)
+                comps.append(nm)
+        ln = cur.ln
+        nv = VSeq(comps, ln, cur.et, cur.kind)
+        wl = st.writelog
+        st.writelog = None
+        try:
+            self.write(st, tabloc, nv, structural=False)
+        finally:
+            st.writelog = wl
+        return nv
+
     def seq_mutate(self, st, loc, cur: VSeq, name, args):
+        tab = self.table_of(st, loc)
+        if tab is not None and name in ("append", "remove"):
+            from . import tables
+            before = tab[1]
+            res = self._seq_mutate(st, loc, cur, name, args)
+            after = self.name_table(st, tab[0])
+            x = as_int(args[0])
+            facts = tables.fact_bucket_append(before, after, tab[2], x) if name == "append" \
+                else tables.fact_bucket_remove(before, after, tab[2], x)
+            st.pc += facts
+            self.lib_used.add("T-occ2: occurrence counts of a list-of-lists table (tcount/tsize) with update facts for "
+                              "bucket append / slot overwrite / list.remove / appending an empty bucket; every axiom and "
+                              "update fact is re-validated on random tables by CPython on each run")
+            return res
+        if isinstance(cur.et, TSeq) and isinstance(cur.et.elem, TInt) and name == "append" and isinstance(args[0], VSeq) \
+                and z3.is_int_value(z3.simplify(args[0].ln)) and z3.simplify(args[0].ln).as_long() == 0:
+            from . import tables
+            res = self._seq_mutate(st, loc, cur, name, args)
+            st.pc += tables.fact_outer_append_empty(cur, self.name_table(st, loc))
+            return res
+        return self._seq_mutate(st, loc, cur, name, args)
+
+    def _seq_mutate(self, st, loc, cur: VSeq, name, args):
         if name == "append":
             v = self.coerce(st, args[0], cur.et, "append", typed_store=cur.kind)
             terms = self.flat.pack(cur.et, v)
             nv = VSeq([z3.Store(a, cur.ln, t) for a, t in zip(cur.comps, terms)], cur.ln + 1, cur.et, cur.kind)
+            if isinstance(cur.et, TInt) and cur.kind == "list":
+                from . import tables
+                st.pc += tables.fact_list_append(cur, nv, as_int(v))
             self.write(st, loc, nv)
             return VNone()
         if name == "pop":
@@ -560,7 +624,12 @@ class Executor(Exec):
                     cs.append(other.comps[0][k] <= cur.et.hi)
                 self.oblige(st, f"L{self.cur_line}.typed_extend_in_range",
                             z3.ForAll([k], z3.Implies(z3.And(0 <= k, k < other.ln), z3.And(*cs))))
-            self.write(st, loc, self.seq_concat(st, cur, other))
+            nv = self.seq_concat(st, cur, other)
+            if isinstance(cur.et, TInt) and cur.kind == "list" and isinstance(other.et, TInt):
+                from . import tables, lib_models
+                nv = lib_models.named_array(self, st, nv)
+                st.pc += tables.fact_list_extend(cur, lib_models.named_array(self, st, other), nv)
+            self.write(st, loc, nv)
             return VNone()
         if name == "remove":
             # removes the first occurrence: result described by a fresh sequence
@@ -569,12 +638,18 @@ class Executor(Exec):
                 return self.seq_remove_struct(st, loc, cur, args[0])
             w = z3.Int(fresh_name("w"))
             i = z3.Int(fresh_name("r"))
-            self.oblige(st, f"L{self.cur_line}.remove_present",
-                        z3.Exists([i], z3.And(0 <= i, i < cur.ln, cur.comps[0][i] == x)))
+            from . import tables
+            self.oblige(st, f"L{self.cur_line}.remove_present", tables.lcnt(cur.comps[0], z3.IntVal(0), cur.ln, x) >= 1)
             st.pc.append(z3.And(0 <= w, w < cur.ln, cur.comps[0][w] == x,
                                 z3.ForAll([i], z3.Implies(z3.And(0 <= i, i < w), cur.comps[0][i] != x))))
             j = z3.Int(fresh_name("p"))
             nv = VSeq([z3.Lambda([j], z3.If(j < w, a[j], a[j + 1])) for a in cur.comps], cur.ln - 1, cur.et, cur.kind)
+            from . import lib_models
+            nv = lib_models.named_array(self, st, nv)
+            fq = z3.Int("f!lr")
+            st.pc.append(z3.ForAll([fq], tables.lcnt(nv.comps[0], 0, nv.ln, fq)
+                                   == tables.lcnt(cur.comps[0], 0, cur.ln, fq) - tables.ind(fq == x),
+                                   patterns=[tables.lcnt(nv.comps[0], 0, nv.ln, fq)]))
             self.write(st, loc, nv)
             return VNone()
         raise Unsupported(f"sequence method {name}")
@@ -786,6 +861,14 @@ class Executor(Exec):
                     self.call_method(st, base, "__setitem__", [idx, v], {})
                     return [(st, "normal")]
             loc = self.loc_of(target, st)
+            tab = self.table_of(st, loc[1]) if loc[0] == "elem" else None
+            if tab is not None:
+                from . import tables
+                before = tab[1]
+                xold = as_int(self.read(st, loc))
+                self.write(st, loc, v, structural=False)
+                st.pc += tables.fact_slot_overwrite(before, self.name_table(st, tab[0]), tab[2], loc[2], xold, as_int(v))
+                return [(st, "normal")]
             self.write(st, loc, v, structural=False)
             return [(st, "normal")]
         raise Unsupported("assignment target")
